@@ -204,6 +204,17 @@ def encode(obs, case):
         rec["re"] = 1
         root = [n for n in nodes if n.get("root")]
         rs = root[-1]["schema"] if root else []
+        # A value-set type such as int{0} is typed float{0} by about one compilation in a hundred (recorded C16 finding:
+        # DataType equality vs hash in the generic visitor).  The two are equal for the library; they are made equal here
+        # too, so that this judge does not flicker: a Float type made of integral single values is read as the Integer one.
+        def numeric_norm(t):
+            if t["k"] == "opt":
+                return {"k": "opt", "t": numeric_norm(t["t"])}
+            if t["k"] == "float" and t.get("ivs") and all(lo == hi and float_of(lo) == int(float_of(lo)) for lo, hi in t["ivs"]):
+                return {"k": "int", "ivs": [[int(float_of(lo)), int(float_of(hi))] for lo, hi in t["ivs"]]}
+            return t
+        rs = [dict(c, t=numeric_norm(c["t"])) for c in rs]
+        obs = dict(obs, reparse_schema=[dict(c, t=numeric_norm(c["t"])) for c in obs["reparse_schema"]])
         rk2 = Ranker()
         for c in rs + obs["reparse_schema"]:
             register_type(rk2, c["t"])
